@@ -1,2 +1,342 @@
-/-! Line-protocol driver stub for the codec cluster (to be written by the cluster owner). -/
-def main : IO Unit := IO.println "bad-op"
+import J5V.Go.Hex
+import J5V.Codec.Encode
+import J5V.Codec.Query
+/-! Line-protocol driver for the codec models (core only), `harness/PROTOCOL-codec.md` v1.
+Stateless: one self-contained op per input line, one result per output line. -/
+open J5V.Go J5V.Json J5V.Codec
+
+/-! ## s-expressions -/
+
+inductive Sx where
+  | atom (s : String)
+  | list (xs : List Sx)
+  deriving Inhabited
+
+/-- parses a sequence of s-expressions up to a closing paren or the end; returns the items and the
+rest (after the closing paren, if any) and whether a closing paren was seen -/
+partial def parseSeq (cs : List Char) (acc : List Sx) : Option (List Sx × List Char × Bool) :=
+  match cs with
+  | [] => some (acc.reverse, [], false)
+  | ' ' :: rest => parseSeq rest acc
+  | '\n' :: rest => parseSeq rest acc
+  | '\r' :: rest => parseSeq rest acc
+  | ')' :: rest => some (acc.reverse, rest, true)
+  | '(' :: rest =>
+    match parseSeq rest [] with
+    | some (xs, rest', true) => parseSeq rest' (.list xs :: acc)
+    | _ => none
+  | _ =>
+    let a := cs.takeWhile fun c => c != ' ' && c != '(' && c != ')' && c != '\n' && c != '\r'
+    parseSeq (cs.drop a.length) (.atom (String.ofList a) :: acc)
+
+def parseLine (line : String) : Option (List Sx) :=
+  match parseSeq line.toList [] with
+  | some (xs, _, false) => some xs
+  | _ => none
+
+/-! ## atoms -/
+
+def hexBytes (s : String) : Option Bytes :=
+  (fromHex s).map fun l => l.map UInt8.ofNat
+
+def bytesHex (b : Bytes) : String := toHexW (b.map (·.toNat))
+
+def sxHex : Sx → Option Bytes
+  | .atom s => hexBytes s
+  | _ => none
+
+def sxNat : Sx → Option Nat
+  | .atom s => s.toNat?
+  | _ => none
+
+def sxInt : Sx → Option Int
+  | .atom s => s.toInt?
+  | _ => none
+
+/-- fixed-width hex number (B16 / B8) -/
+def hexNum (s : String) : Option Nat :=
+  s.toList.foldl (fun acc c =>
+    match acc, J5V.Go.hexVal c with
+    | some n, some d => some (n * 16 + d)
+    | _, _ => none) (some 0)
+
+def sxHexNum : Sx → Option Nat
+  | .atom s => hexNum s
+  | _ => none
+
+def natHexW (n : Nat) (w : Nat) : String :=
+  String.ofList ((List.range w).reverse.map fun i => hexDigit (n / 16 ^ i % 16))
+
+/-! ## env -/
+
+def scalarKindOf : String → Option ScalarKind
+  | "string" => some .string | "key" => some .key | "bool" => some .bool
+  | "int32" => some .int32 | "int64" => some .int64 | "uint32" => some .uint32
+  | "uint64" => some .uint64 | "float32" => some .float32 | "float64" => some .float64
+  | "bytes" => some .bytes | "timestamp" => some .timestamp | "date" => some .date
+  | "decimal" => some .decimal
+  | _ => none
+
+partial def parseField : Sx → Option Field
+  | .list [.atom "enum", .atom n] => some (.enum n)
+  | .list [.atom "object", .atom n] => some (.object n)
+  | .list [.atom "oneof", .atom n] => some (.oneof n)
+  | .list [.atom "any", .atom "j5"] => some (.any false)
+  | .list [.atom "any", .atom "pb"] => some (.any true)
+  | .list [.atom "array", f] => (parseField f).map .array
+  | .list [.atom "map", f] => (parseField f).map .map
+  | .list [.atom k] => (scalarKindOf k).map .scalar
+  | _ => none
+
+def parsePres : Sx → Option Pres
+  | .atom "imp" => some .imp | .atom "opt" => some .opt | .atom "msg" => some .msg
+  | .atom "list" => some .list | .atom "map" => some .map | .atom "none" => some .none
+  | _ => none
+
+def parseProp : Sx → Option PropDef
+  | .list (.atom "prop" :: name :: .list (.atom "path" :: path) :: pres :: field :: tail) => do
+    let n ← sxHex name
+    let p ← path.mapM sxNat
+    let pr ← parsePres pres
+    let f ← parseField field
+    let g ← match tail with
+      | [] => some none
+      | [.list [.atom "in", k]] => (sxNat k).map some
+      | _ => none
+    some { jsonName := n, path := p, pres := pr, field := f, group := g }
+  | _ => none
+
+def parseRootDef : Sx → Option Root
+  | .list (.atom "object" :: props) => (props.mapM parseProp).map .object
+  | .list (.atom "oneof" :: props) => (props.mapM parseProp).map .oneof
+  | .list [.atom "noschema"] => some .noschema
+  | .list (.atom "enum" :: pfx :: opts) => do
+    let p ← sxHex pfx
+    let os ← opts.mapM fun
+      | .list [.atom "opt", n, v] => do some ((← sxHex n), (← sxInt v))
+      | _ => none
+    some (.enum p os)
+  | _ => none
+
+def parseEnv : Sx → Option Env
+  | .list (.atom "env" :: entries) =>
+    entries.foldlM (fun (env : Env) e =>
+      match e with
+      | .list [.atom "def", .atom name, rd] =>
+        (parseRootDef rd).map fun r => { env with defs := env.defs ++ [(name, r)] }
+      | .list [.atom "res", pn, .atom name] =>
+        (sxHex pn).map fun b => { env with res := env.res ++ [(b, name)] }
+      | _ => none) { defs := [], res := [] }
+  | _ => none
+
+/-! ## values -/
+
+mutual
+partial def parseVal : Sx → Option PVal
+  | .list [.atom "b", .atom "0"] => some (.bool false)
+  | .list [.atom "b", .atom "1"] => some (.bool true)
+  | .list [.atom "i", v] => (sxInt v).map .int
+  | .list [.atom "u", v] => (sxNat v).map .uint
+  | .list [.atom "f32", b, _] => (sxHexNum b).map .f32
+  | .list [.atom "f64", b, _] => (sxHexNum b).map .f64
+  | .list [.atom "s", h] => (sxHex h).map .str
+  | .list [.atom "y", h] => (sxHex h).map .bytes
+  | .list [.atom "e", v] => (sxInt v).map .enum
+  | .list [.atom "ts", s, n, _] => do some (.ts (← sxInt s) (← sxInt n))
+  | .list [.atom "date", y, m, d] => do some (.date (← sxInt y) (← sxInt m) (← sxInt d))
+  | .list [.atom "dec", h] => (sxHex h).map .dec
+  | .list [.atom "any", .atom "j5", tn, proto, j5, inner] => do
+    let (ik, ir, iv) ← parseInner inner
+    some (.anyJ5 (← sxHex tn) (← sxHex proto) (← sxHex j5) ik ir iv)
+  | .list [.atom "any", .atom "pb", url, value, inner] => do
+    let (ik, ir, iv) ← parseInner inner
+    some (.anyPb (← sxHex url) (← sxHex value) ik ir iv)
+  | .list (.atom "list" :: xs) => (xs.mapM parseVal).map .list
+  | .list (.atom "map" :: kvs) =>
+    (kvs.mapM fun (e : Sx) =>
+      match e with
+      | Sx.list [k, v] => do some ((← sxHex k), (← parseVal v))
+      | _ => none).map .map
+  | .list (.atom "msg" :: fs) =>
+    (fs.mapM fun (e : Sx) =>
+      match e with
+      | Sx.list [n, v] => do some ((← sxNat n), (← parseVal v))
+      | _ => none).map .msg
+  | _ => none
+partial def parseInner : Sx → Option (InnerKind × String × PVal)
+  | .atom "none" => some (.none, "", .msg [])
+  | .atom "bad" => some (.bad, "", .msg [])
+  | .list [.atom "in", .atom name, m] => (parseVal m).map fun v => (.inn, name, v)
+  | _ => none
+end
+
+/-- oracle texts shipped inside a MSG: `(f32 B8 HEX)`, `(f64 B16 HEX)`, `(ts s n HEX)` -/
+structure FmtTab where
+  f32 : List (Nat × Bytes) := []
+  f64 : List (Nat × Bytes) := []
+  ts : List ((Int × Int) × Bytes) := []
+
+partial def collectFmt (t : FmtTab) : Sx → FmtTab
+  | .list [.atom "f32", b, h] =>
+    match sxHexNum b, sxHex h with
+    | some n, some x => { t with f32 := (n, x) :: t.f32 }
+    | _, _ => t
+  | .list [.atom "f64", b, h] =>
+    match sxHexNum b, sxHex h with
+    | some n, some x => { t with f64 := (n, x) :: t.f64 }
+    | _, _ => t
+  | .list [.atom "ts", s, n, h] =>
+    match sxInt s, sxInt n, sxHex h with
+    | some a, some b, some x => { t with ts := ((a, b), x) :: t.ts }
+    | _, _, _ => t
+  | .list xs => xs.foldl collectFmt t
+  | .atom _ => t
+
+structure OraTab where
+  f : List (Bytes × (Nat × Option Nat)) := []
+  t : List (Bytes × (Int × Int)) := []
+  d : List (Bytes × Bytes) := []
+
+def parseOra : Sx → Option OraTab
+  | .list (.atom "ora" :: ents) =>
+    ents.foldlM (fun (tab : OraTab) e =>
+      match e with
+      | .list [.atom "f", h, b, .atom "range"] => do
+        some { tab with f := ((← sxHex h), ((← sxHexNum b), none)) :: tab.f }
+      | .list [.atom "f", h, b, b32] => do
+        some { tab with f := ((← sxHex h), ((← sxHexNum b), some (← sxHexNum b32))) :: tab.f }
+      | .list [.atom "t", h, s, n] => do
+        some { tab with t := ((← sxHex h), ((← sxInt s), (← sxInt n))) :: tab.t }
+      | .list [.atom "d", h, n] => do
+        some { tab with d := ((← sxHex h), (← sxHex n)) :: tab.d }
+      | _ => none) {}
+  | _ => none
+
+def lookupBy {α β} [BEq α] (k : α) (l : List (α × β)) : Option β :=
+  (l.find? fun e => e.1 == k).map (·.2)
+
+def mkOracle (ft : FmtTab) (ot : OraTab) : Oracle where
+  fmtF64 b := (lookupBy b ft.f64).getD (ascii "?f64")
+  fmtF32 b := (lookupBy b ft.f32).getD (ascii "?f32")
+  parseFloat x := lookupBy x ot.f
+  fmtTime s n := (lookupBy (s, n) ft.ts).getD (ascii "?ts")
+  parseTime x := lookupBy x ot.t
+  parseDec x := lookupBy x ot.d
+
+/-! ## printing -/
+
+def bytesLt : Bytes → Bytes → Bool
+  | [], [] => false
+  | [], _ :: _ => true
+  | _ :: _, [] => false
+  | a :: as, b :: bs => if a < b then true else if b < a then false else bytesLt as bs
+
+def insertSorted {α} (lt : α → α → Bool) (x : α) : List α → List α
+  | [] => [x]
+  | y :: ys => if lt x y then x :: y :: ys else y :: insertSorted lt x ys
+
+def sortBy {α} (lt : α → α → Bool) (l : List α) : List α := l.foldr (insertSorted lt) []
+
+mutual
+partial def showVal : PVal → String
+  | .bool b => if b then "(b 1)" else "(b 0)"
+  | .int v => s!"(i {v})"
+  | .uint v => s!"(u {v})"
+  | .f32 b => s!"(f32 {natHexW b 8})"
+  | .f64 b => s!"(f64 {natHexW b 16})"
+  | .str s => s!"(s {bytesHex s})"
+  | .bytes s => s!"(y {bytesHex s})"
+  | .enum n => s!"(e {n})"
+  | .ts s n => s!"(ts {s} {n})"
+  | .date y m d => s!"(date {y} {m} {d})"
+  | .dec s => s!"(dec {bytesHex s})"
+  | .anyJ5 tn _ j5 ik ir iv => s!"(any j5 {bytesHex tn} {bytesHex j5} {showInner ik ir iv})"
+  | .anyPb url _ ik ir iv => s!"(any pb {bytesHex url} {showInner ik ir iv})"
+  | .msg fs => showMsg fs
+  | .list xs => "(list" ++ String.join (xs.map fun x => " " ++ showVal x) ++ ")"
+  | .map kvs =>
+    "(map" ++ String.join ((sortBy (fun a b => bytesLt a.1 b.1) kvs).map fun kv =>
+      s!" ({bytesHex kv.1} {showVal kv.2})") ++ ")"
+partial def showMsg (fs : List (Nat × PVal)) : String :=
+  "(msg" ++ String.join (fs.map fun f => s!" ({f.1} {showVal f.2})") ++ ")"
+partial def showInner (ik : InnerKind) (ir : String) (iv : PVal) : String :=
+  match ik with
+  | .none => "none"
+  | .bad => "bad"
+  | .inn => s!"(in {ir} {showVal iv})"
+end
+
+def showTok : Tok → String
+  | .lb => "lb" | .rb => "rb" | .lk => "lk" | .rk => "rk"
+  | .str s _ => s!"(s {bytesHex s})"
+  | .num t => s!"(n {bytesHex t})"
+  | .tru => "t" | .fls => "f" | .null => "z"
+
+/-! ## ops -/
+
+def modeOf : Sx → Option Bool
+  | .atom "n" => some false
+  | .atom "p" => some true
+  | _ => none
+
+def runTok (bs : Bytes) : String :=
+  let its := tokenize bs
+  let toks := its.filterMap fun | .tok t => some t | _ => none
+  let failed := its.any fun | .tok _ => false | _ => true
+  let depth : Int := toks.foldl (fun d t =>
+    match t with
+    | .lb | .lk => d + 1
+    | .rb | .rk => d - 1
+    | _ => d) 0
+  -- a pending object key (`{"a"` then EOF) is not "top level" either, but then depth > 0
+  let body := "(" ++ " ".intercalate (toks.map showTok) ++ ")"
+  if !failed && depth == 0 then "ok " ++ body else s!"err {toks.length} {body}"
+
+def step (line : String) : String :=
+  match parseLine line with
+  | some [.atom "tok", h] =>
+    match sxHex h with
+    | some bs => runTok bs
+    | none => "bad-op"
+  | some [.atom "enc", mode, env, .atom root, msg] =>
+    match modeOf mode, parseEnv env, parseVal msg with
+    | some _, some e, some v =>
+      let O := mkOracle (collectFmt {} msg) {}
+      match encodeBytes e O root v with
+      | .ok bs => "ok " ++ bytesHex bs
+      | .err _ => "err"
+      | .panic _ => "panic"
+    | _, _, _ => "bad-op"
+  | some [.atom "dec", mode, env, .atom root, h, ora] =>
+    match modeOf mode, parseEnv env, sxHex h, parseOra ora with
+    | some p, some e, some bs, some ot =>
+      let c : Cfg := { env := e, O := mkOracle {} ot, protoToAny := p }
+      match decodeBytes c root bs with
+      | .ok fs => "ok " ++ showMsg fs
+      | .err _ => "err"
+      | .panic _ => "panic"
+    | _, _, _, _ => "bad-op"
+  | some [.atom "query", mode, env, .atom root, .list (.atom "q" :: kvs), ora] =>
+    let kvs' : Option (List (Bytes × List Bytes)) := kvs.mapM fun
+      | .list (k :: vs) => do some ((← sxHex k), (← vs.mapM sxHex))
+      | _ => none
+    match modeOf mode, parseEnv env, kvs', parseOra ora with
+    | some p, some e, some q, some ot =>
+      let c : Cfg := { env := e, O := mkOracle {} ot, protoToAny := p }
+      match decodeQuery c root q with
+      | .ok fs => "ok " ++ showMsg fs
+      | .err _ => "err"
+      | .panic _ => "panic"
+    | _, _, _, _ => "bad-op"
+  | _ => "bad-op"
+
+partial def loop (h : IO.FS.Stream) (out : IO.FS.Stream) : IO Unit := do
+  let line ← h.getLine
+  if line.isEmpty then return ()
+  out.putStrLn (step line)
+  loop h out
+
+def main : IO Unit := do
+  let out ← IO.getStdout
+  loop (← IO.getStdin) out
+  out.flush
